@@ -40,7 +40,7 @@ VARIABLES committed,  \* [Chan -> [Even -> 0..MaxId]]   0 = no sample
 vars == <<committed, domains, wr, nextId, res>>
 
 NoWriter == [open |-> FALSE, chans |-> {}, start |-> 0, hwm |-> -1, buf |-> {},
-             auto |-> FALSE, ins |-> FALSE, n |-> 0]
+             auto |-> FALSE, ins |-> FALSE, n |-> 0, failed |-> FALSE]
 Init == /\ committed = [c \in Chan |-> [t \in Even |-> 0]]
         /\ domains = [c \in Chan |-> {}]
         /\ wr = [w \in Writers |-> NoWriter]
@@ -76,7 +76,7 @@ OpenWriter(w, cs, s, auto) ==
   /\ IF \E c \in cs : \E d \in domains[c] : Inside(d, s)
      THEN /\ res' = "conflict" /\ UNCHANGED <<committed, domains, wr, nextId>>
      ELSE /\ wr' = [wr EXCEPT ![w] = [open |-> TRUE, chans |-> cs, start |-> s, hwm |-> s - 1,
-                                      buf |-> {}, auto |-> auto, ins |-> FALSE, n |-> 0]]
+                                      buf |-> {}, auto |-> auto, ins |-> FALSE, n |-> 0, failed |-> FALSE]]
           /\ res' = "ok" /\ UNCHANGED <<committed, domains, nextId>>
 
 \* times a Write of n samples lands on
@@ -99,7 +99,7 @@ DoCommit(w, cm, dm, times) ==
 
 \* Write of explicit sample times (index-writing writer) or of n samples (data-only)
 WriteGuard(w, times) ==
-  /\ wr[w].open /\ times # {} /\ Cardinality(times) <= MaxLen /\ nextId <= MaxId
+  /\ wr[w].open /\ ~wr[w].failed /\ times # {} /\ Cardinality(times) <= MaxLen /\ nextId <= MaxId
   /\ IF "I" \in wr[w].chans
      THEN /\ times \subseteq Even
           /\ \A t \in times : t > wr[w].hwm /\ t >= wr[w].start
@@ -121,9 +121,27 @@ Write(w, times) ==
         ELSE /\ wr' = [wr EXCEPT ![w] = w2] /\ UNCHANGED <<committed, domains>>
   /\ nextId' = nextId + 1 /\ res' = "ok"
 
+\* A write of an auto-commit, index-writing writer whose range runs into another domain of EVERY
+\* one of its channels: the commit is refused ("write overlaps with existing data"), nothing
+\* of it becomes visible, everything committed before stays, and the writer is failed: every
+\* later Write / Commit / Close reports the same error (Close still closes).
+ConflictGuard(w, times) ==
+  /\ wr[w].open /\ ~wr[w].failed /\ wr[w].auto /\ "I" \in wr[w].chans
+  /\ times # {} /\ Cardinality(times) <= MaxLen /\ nextId <= MaxId /\ times \subseteq Even
+  /\ \A t \in times : t > wr[w].hwm /\ t >= wr[w].start
+  /\ (EarlyStart \/ wr[w].n > 0 \/ Min(times) = wr[w].start)
+  /\ \A c \in wr[w].chans : \E d \in Others(w, c) : Overlap(d, wr[w].start, Max(times) + 1)
+WriteConflict(w, times) ==
+  /\ ConflictGuard(w, times)
+  /\ wr' = [wr EXCEPT ![w].failed = TRUE]
+  /\ nextId' = nextId + 1 /\ res' = "conflict" /\ UNCHANGED <<committed, domains>>
+WriteFailed(w) ==
+  /\ wr[w].open /\ wr[w].failed /\ nextId <= MaxId
+  /\ nextId' = nextId + 1 /\ res' = "conflict" /\ UNCHANGED <<committed, domains, wr>>
+
 \* (an explicit Commit on an auto-commit writer is legal and finds nothing to commit)
 Commit(w) ==
-  /\ wr[w].open
+  /\ wr[w].open /\ ~wr[w].failed
   /\ IF wr[w].buf = {}
      THEN UNCHANGED <<committed, domains, wr>>
      ELSE LET r == DoCommit(w, committed, domains, wr[w].buf)
@@ -134,7 +152,7 @@ Commit(w) ==
 CloseWriter(w) ==
   /\ wr[w].open
   /\ wr' = [wr EXCEPT ![w] = NoWriter]
-  /\ res' = "ok" /\ UNCHANGED <<committed, domains, nextId>>
+  /\ res' = (IF wr[w].failed THEN "conflict" ELSE "ok") /\ UNCHANGED <<committed, domains, nextId>>
 
 AllClosed == \A w \in Writers : ~wr[w].open
 Reopen == AllClosed /\ res' = "ok" /\ UNCHANGED <<committed, domains, wr, nextId>>
@@ -172,7 +190,8 @@ Delete(cs, a, b) ==
 MustRefuse(cs, a, b) == "I" \in cs /\ \E c \in DataChan \ cs : \E t \in Samples(c) : a <= t /\ t < b
 
 Next == \/ \E w \in Writers, cs \in ChanSets, s \in Time, au \in BOOLEAN : OpenWriter(w, cs, s, au)
-        \/ \E w \in Writers, ts \in SUBSET Even : Write(w, ts)
+        \/ \E w \in Writers, ts \in SUBSET Even : Write(w, ts) \/ WriteConflict(w, ts)
+        \/ \E w \in Writers : WriteFailed(w)
         \/ \E w \in Writers : Commit(w) \/ CloseWriter(w)
         \/ Reopen \/ GC
         \/ \E cs \in DeleteSets, a, b \in Time : Delete(cs, a, b)
